@@ -29,13 +29,14 @@ CREDIT_KINDS = ("node", "learner", "mean", "each", "each-varying", "lpull")
 def is_learner_expr(e):
     while isinstance(e, ast.Subscript):
         e = e.value
-    return (is_self_attr(e) and e.attr in LEARNER_ATTRS) or (isinstance(e, ast.Name) and e.id == "algo")
+    return is_self_attr(e) and e.attr in LEARNER_ATTRS
 
 
 class Path:
     def __init__(self):
         self.conds = []
         self.entry = []      # parallel to conds: the condition was evaluated on the state the method was entered with
+        self.wmark = []      # parallel to conds: number of writes recorded when the condition was evaluated
         self.events = []
         self.done = False
         self.writes = []     # (target_src, stmt_src, value_src)
@@ -47,6 +48,7 @@ class Path:
         p = Path()
         p.conds = list(self.conds)
         p.entry = list(self.entry)
+        p.wmark = list(self.wmark)
         p.events = list(self.events)
         p.done = self.done
         p.writes = list(self.writes)
@@ -301,6 +303,51 @@ class Walker:
                 raise AnalysisError("more than %d paths in %s" % (MAX_PATHS, self.cls))
         return paths
 
+    def split_test(self, test, paths):
+        """(paths on which the test holds, paths on which it fails), one recorded condition per atom: `a and b`, `a or b` and
+        `not a` are followed with short-circuit semantics, so every path condition is an atomic test."""
+        if isinstance(test, ast.BoolOp) and isinstance(test.op, ast.And):
+            t, f = self.split_test(test.values[0], paths)
+            for v in test.values[1:]:
+                t, f2 = self.split_test(v, t)
+                f = f + f2
+            return t, f
+        if isinstance(test, ast.BoolOp) and isinstance(test.op, ast.Or):
+            t, f = self.split_test(test.values[0], paths)
+            for v in test.values[1:]:
+                t2, f = self.split_test(v, f)
+                t = t + t2
+            return t, f
+        if isinstance(test, ast.UnaryOp) and isinstance(test.op, ast.Not) and isinstance(test.operand, ast.BoolOp):
+            f, t = self.split_test(test.operand, paths)
+            return t, f
+        a, b = [], []
+        for p in paths:
+            c = self.src(test, p)
+            # the same test evaluated again on an unchanged state has the same outcome: do not invent the infeasible branch
+            known = None
+            for i in range(len(p.conds) - 1, -1, -1):
+                if p.conds[i][0] == c and i < len(p.wmark):
+                    deps = _self_deps(c)
+                    later = p.writes[p.wmark[i]:]
+                    touched = any(w[0].replace("[]", "").split("[")[0] in deps or "?" in deps for w in later)
+                    calls_since = False
+                    if not touched and not any(isinstance(x, ast.Call) and not (isinstance(x.func, ast.Attribute) and x.func.attr.startswith("get_"))
+                                               and not norm_src(x.func).startswith(("np.", "math.", "len"))
+                                               for x in ast.walk(ast.parse(c, mode="eval"))):
+                        known = p.conds[i][1]
+                    break
+            fresh = _fresh(c, p)
+            for pol, bucket in ((True, a), (False, b)):
+                if known is not None and known != pol:
+                    continue
+                q = p.clone()
+                q.conds.append((c, pol))
+                q.entry.append(fresh)
+                q.wmark.append(len(p.writes))
+                bucket.append(q)
+        return a, b
+
     def aliasable(self, v):
         """Expressions a local may stand for in later receivers: attribute/subscript/getter chains."""
         for n in ast.walk(v):
@@ -374,19 +421,8 @@ class Walker:
             return paths
         if isinstance(s, ast.If):
             paths = self.expr_effects(s.test, paths, stmt=s)
-            out = []
-            a, b = [], []
-            for p in paths:
-                c = self.src(s.test, p)
-                pa, pb = p.clone(), p.clone()
-                pa.conds.append((c, True))
-                pb.conds.append((c, False))
-                fresh = _fresh(c, p)
-                pa.entry.append(fresh)
-                pb.entry.append(fresh)
-                a.append(pa)
-                b.append(pb)
-            out += self.block(list(s.body), a)
+            a, b = self.split_test(s.test, paths)
+            out = self.block(list(s.body), a)
             out += self.block(list(s.orelse), b)
             return merge(out)
         if isinstance(s, ast.For):
@@ -484,10 +520,16 @@ class Walker:
                 for p in paths:
                     args = [self.src(a, p) for a in call.args] + ["%s=%s" % (k.arg, self.src(k.value, p)) for k in call.keywords]
                     _ev(p, ("learner", self.src(recv, p), args, call))
-            elif m in ("pull", "get_last_point") and is_learner_expr(recv):
+            elif m in ("pull", "get_last_point") and (is_learner_expr(recv) or
+                                                        (isinstance(recv, ast.Name) and recv.id != "self" and
+                                                         any(is_learner_expr(subst(recv, p.env)) for p in paths))):
+                # (the receiver may be a local standing for a learner expression on this path)
                 for p in paths:
                     args = [self.src(a, p) for a in call.args] + ["%s=%s" % (k.arg, self.src(k.value, p)) for k in call.keywords]
-                    _ev(p, ("lpull", self.src(recv, p), args, call))
+                    if is_learner_expr(recv) or is_learner_expr(subst(recv, p.env)):
+                        _ev(p, ("lpull", self.src(recv, p), args, call))
+                    else:
+                        _ev(p, ("call", "%s.%s" % (self.src(recv, p), m), args, call))
             elif isinstance(recv, ast.Name) and recv.id == "self":
                 o, callee = self.model.lookup(self.cls, m)
                 if callee is not None and self.depth < 6:
@@ -510,6 +552,7 @@ class Walker:
                                 q = p.clone()
                                 q.conds += spath.conds
                                 q.entry += [f and _fresh(c, p) for (c, _), f in zip(spath.conds, spath.entry)]
+                                q.wmark += [len(p.writes) + wm for wm in spath.wmark]
                                 wi = 0
                                 for item in spath.seq:
                                     if item[0] == "ev":
